@@ -12,10 +12,25 @@ from mc.engine import hbfs
 from mc.engine.report import Violation
 from mc.engine.seams import Canon
 
+import enum
+
 from ECAgent.Batching import ParameterList
 import ECAgent.Core as Core
 
+class Policy(enum.Enum):
+    """A class that is itself a re-iterable collection (of its members)."""
+    GREEDY = 'greedy'
+    LAZY = 'lazy'
+    FAIR = 'fair'
+
+
+class Strategy:
+    """A class that cannot be iterated: one value."""
+
+
 VALUES = {
+    'enum_class': lambda: Policy,
+    'plain_class': lambda: Strategy,
     'int': lambda: 7,
     'str': lambda: 'xy',
     'empty': lambda: [],
@@ -43,6 +58,7 @@ VALUES = {
     'ragged_t': lambda: ((3,), (3, 3)),
 }
 EXPANDED = {
+    'enum_class': [Policy.GREEDY, Policy.LAZY, Policy.FAIR], 'plain_class': [Strategy],
     'int': [7], 'str': ['xy'], 'empty': [], 'one': [1], 'two': [1, 2], 'tuple_rep': [1, 1], 'range2': [0, 1],
     'nparr': [1, 2], 'none': [None], 'strs': ['p', 'qq'], 'nested': [[1, 2], 'ab'], 'np2d': [[1, 2], [3, 4], [5, 6]], 'np0d': [5],
     'npdt': ['dt:2021-03-04T05:06:07.000000008', 'dt:2021-03-05T00:00:00.000000000'],
@@ -455,6 +471,72 @@ def endless_case(case):
     return 2
 
 
+ODD_NAMES = ['lambda', 'class', 'in', 'None', 'True', 'lambda_', 'class_', '_', '__init__', '', ' ', 'two words', 'a.b',
+             'a,b', '0', 'é', 'x' * 300, 'print', 'model', 'kwargs', 'id']
+
+
+def names_case(case):
+    """Parameter names of every spelling (reserved words, names ending in an underscore, empty, with spaces ...): the built
+    combinations carry exactly the declared names, in declaration order."""
+    names = case['names']
+    decl = {n: ([i, -i - 1] if i == case['multi'] else i) for i, n in enumerate(names)}
+    if case['ctor']:
+        pl = ParameterList(dict(decl))
+    else:
+        pl = ParameterList()
+        for n, v in decl.items():
+            pl.add_parameter(n, v)
+    gone = case.get('remove')
+    if gone is not None:
+        pl.remove_parameter(names[gone])
+        del decl[names[gone]]
+    got = pl.build()
+    pools = [(v if isinstance(v, list) else [v]) for v in decl.values()]
+    exp = [dict(zip(decl, combo)) for combo in itertools.product(*pools)]
+    if got != exp or any(list(g) != list(e) for g, e in zip(got, exp)):
+        raise Violation(f'declaration under the names {[n[:12] for n in names]} (removed: {gone}): the combinations do not carry '
+                        f'exactly the declared names in declaration order', expected=[list(e)[:8] for e in exp[:1]],
+                        observed=[list(g)[:8] for g in got[:1]] if isinstance(got, list) else repr(got)[:80])
+    return len(exp)
+
+
+def names_cases():
+    for ctor in (True, False):
+        for n in ODD_NAMES:
+            yield {'leg': 'names', 'names': [n], 'multi': 0, 'ctor': ctor}
+            yield {'leg': 'names', 'names': ['pa', n, 'pz'], 'multi': 1, 'ctor': ctor}
+            yield {'leg': 'names', 'names': ['pa', n, 'pz'], 'multi': 0, 'ctor': ctor, 'remove': 2}
+        for a, b in (('lambda', 'lambda_'), ('lambda_', 'lambda'), ('class', 'class_'), ('in_', 'in'), ('', ' '), ('_', '__')):
+            yield {'leg': 'names', 'names': [a, b], 'multi': 1, 'ctor': ctor}
+            yield {'leg': 'names', 'names': [a, b, 'pz'], 'multi': 0, 'ctor': ctor, 'remove': 0}
+        yield {'leg': 'names', 'names': ODD_NAMES, 'multi': 3, 'ctor': ctor}
+
+
+def long_values_case(case):
+    """One parameter with tens of thousands of values, declared first / in the middle / last next to a two-valued and a
+    single-valued one: every combination carries every name, the long parameter's values under ITS name."""
+    import numpy as np
+    n, where, kind = case['n'], case['where'], case['kind']
+    long_v = {'range': range(n), 'list': list(range(n)), 'tuple': tuple(range(n)), 'nparr': np.arange(n)}[kind]
+    decl = [('two', ['a', 'b']), ('one', 7)]
+    decl.insert(where, ('long', long_v))
+    pl = ParameterList()
+    for k, v in decl:
+        pl.add_parameter(k, v)
+    got = pl.build()
+    names = [k for k, _ in decl]
+    if not isinstance(got, list) or len(got) != 2 * n:
+        raise Violation(f'{n} values ({kind}) declared at position {where}: number of combinations', expected=2 * n,
+                        observed=len(got) if isinstance(got, list) else repr(got)[:80])
+    pools = [(list(range(n)) if k == 'long' else v if isinstance(v, list) else [v]) for k, v in decl]
+    for j, combo in enumerate(itertools.product(*pools)):
+        g = got[j]
+        if list(g) != names or any(_py(g[k]) != c for k, c in zip(names, combo)):
+            raise Violation(f'{n} values ({kind}) declared at position {where}: combination {j}', expected=dict(zip(names, combo)),
+                            observed={k: repr(v)[:20] for k, v in list(g.items())[:4]})
+    return 2 * n
+
+
 def wide_case(case):
     """n declared parameters of which only those at the given positions have more than one value: whichever positions
     those are, the earlier-declared one varies slowest."""
@@ -613,12 +695,35 @@ def run(ctx):
                 ctx.report(case, v)
                 return
     ctx.leg('churn', note='8 sequences of 120 short-lived lists with 3 / 48 / 64 / 200 values')
+    nn = 0
+    for case in names_cases():
+        ctx.traces += 1
+        nn += 1
+        try:
+            ctx.transitions += hbfs._guard(names_case, case)
+        except Violation as v:
+            ctx.report(case, v)
+            return
+    ctx.leg('names', cases=nn, note='reserved words, trailing underscores, empty / spaced / very long names')
+    if not ctx.small:
+        for n in (32768, 32769, 40000) if ctx.tier == 'quick' else (32768, 32769, 40000, 65536, 65537, 100000):
+            for where in (0, 1, 2):
+                for kind in ('range', 'list', 'tuple', 'nparr'):
+                    case = {'leg': 'long_values', 'n': n, 'where': where, 'kind': kind}
+                    ctx.traces += 1
+                    try:
+                        ctx.transitions += hbfs._guard(long_values_case, case)
+                    except Violation as v:
+                        ctx.report(case, v)
+                        return
+        ctx.leg('long_values', note='a parameter with 32768 .. 40000 (thorough 100000) values at every declaration position')
     if ctx.small:
         vals = ['int', 'str', 'empty', 'one', 'two', 'tuple_rep', 'range2', 'nparr', 'none', 'np2d', 'np0d', 'npdt']
         plan = [('empty', vals, 2), ('dict_ab', vals[:5], 2)]
     elif ctx.tier == 'quick':
         vals = ['int', 'str', 'empty', 'one', 'two', 'tuple_rep', 'range2', 'nparr', 'none', 'np2d', 'np0d', 'npdt', 'tuple_f',
-                'legacy_seq', 'one_tuple', 'one_list', 'one_empty', 'ragged', 'ragged_t', 'zero_pos', 'zero_neg']
+                'legacy_seq', 'one_tuple', 'one_list', 'one_empty', 'ragged', 'ragged_t', 'zero_pos', 'zero_neg', 'enum_class',
+                'plain_class']
         plan = [('empty', vals, 3), ('dict_ab', vals[:5], 2), ('empty_dict', vals[:3], 1), ('dict_ba', vals[3:8], 2),
                 ('dict_special', vals[:5], 2)]
     else:
@@ -641,6 +746,12 @@ def replay(case):
         return
     if case['leg'] == 'mapping':
         hbfs._guard(mapping_case, case)
+        return
+    if case['leg'] == 'names':
+        hbfs._guard(names_case, case)
+        return
+    if case['leg'] == 'long_values':
+        hbfs._guard(long_values_case, case)
         return
     if case['leg'] == 'endless':
         hbfs._guard(endless_case, case)
